@@ -304,7 +304,7 @@ def main(argv=None):
     chk.assumptions = ["fixed-size kinds (ciphertext, signature, master keys, LQ-IBE objects, g1/g2/gt): the caller passes at least *_get_marshalled_length(compressed) bytes "
                        "(the API has no length parameter for them)",
                        "the destination object is valid writable memory of sizeof(struct) and, for Params / SecretKey, points to l slots where l is what set_length returned",
-                       "part 2 of the property (all other API calls are free of UB) is not decided by this check, see the explanation"]
+                       "part 2 of the property (all other API calls are free of UB) is decided for the calls the included obligations execute (C02 byte I/O, C03, C09, C11-C14, C16, C19), not for every call sequence"]
     chk.rule = ("one evaluation = one obligation = one symbolic exploration (all n, all contents) of a parser entry point; every memory access on every path is a "
                 "solver VC against the symbolic buffer length or a concrete bounds test against the exact-size destination objects")
     # the element decoder itself (C17's own obligations model it as "reads exactly the encoding"): its byte-level obligations from C09, for every byte string
@@ -322,6 +322,9 @@ def main(argv=None):
     # (every access is a checked access): the obligations of C11, C13 and C14
     for dep in ("C11", "C13", "C14"):
         chk.include(dep)
+    # ... encrypt / decrypt (C12's positive obligations: every key pattern against every ciphertext list shape) and the LQ-IBE operations (C16)
+    chk.include("C12", only=r"^decrypt:")
+    chk.include("C16")
     # statelessness (no call leaves anything behind in a global or static) is a premise of every per-call obligation: C20's IR obligations
     chk.include("C20")
     chk.run()
